@@ -272,6 +272,29 @@ def raw_fetch_kinds(res, prog, c):
                     res.violation('C16.7', 'C16.7|raw-sym|%s' % (g.callee(t).split('::')[-1]), g, t.get('line'), '%s persists whatever the server sends at lookup(module, file_kind).cache_rel; for FileKind::BreakpadSym that is the path of the symbol cache entry, so locate_file(BreakpadSym) can store an unparsed (e.g. HTML) body where locate_symbols will read it' % g.callee(t).split('::')[-1])
 
 
+def accepted_when_consumed(res, prog, c):
+    """C16.8: a downloaded body is committed to the cache when parse_async returns Ok, and the cache entry is the bytes the
+    callback saw plus the INFO URL note.  The entry re-parses only if Ok means "every byte was consumed by the line parser":
+    in both loops SymbolParser::finish (the only source of an Ok) is reached under `fully_consumed` alone."""
+    from . import C10
+    res.rule('C16.8', 0, floor=2, note='Ok(parser.finish()) only when the window was emptied by the line parser; no unparsed tail is handed to the cache on that edge')
+    for path in (C10.PARSE, C10.PARSE_ASYNC):
+        f = c.fn(path)
+        if f is None:
+            res.error('C16.8', '%s not found' % path)
+            continue
+        fins = [(b, t) for b, t in f.calls() if (f.callee(t) or '').endswith('SymbolParser::finish')]
+        if not fins:
+            res.error('C16.8', 'no call of SymbolParser::finish in %s' % path)
+        which = 'async' if 'async' in path else 'sync'
+        for b, t in fins:
+            res.rule('C16.8', 1)
+            facts = [r for r, g, sx in panics.dominating_facts(f, b)]
+            full = any(r[0] == 'true' and show(f.expand(r[1])) in ('fully_consumed',) or (r[0] == 'true' and show(r[1]) == 'fully_consumed') for r in facts)
+            if not full:
+                res.violation('C16.8', 'C16.8|accept|' + which, f, t.get('line'), 'the symbol file is accepted (Ok(parser.finish())) on an edge that is not `fully_consumed`: bytes after the last parsed line are still in the window, and whatever of them reached the callback is cached in front of the INFO URL note, so the committed entry need not parse again')
+
+
 def run(tier, t0):
     res = harness.Result(PID)
     prog = program()
@@ -283,6 +306,7 @@ def run(tier, t0):
     url_roundtrip(res, prog, c)
     created_once(res, prog, c)
     raw_fetch_kinds(res, prog, c)
+    accepted_when_consumed(res, prog, c)
     # the cache tee sees exactly the consumed bytes: shared rule with C10.1 (a dropped callback truncates the cache entry)
     from . import C10
     res.rule('C10.1', 0, floor=2, note='(shared with C10) every consume(n) in parse_async is preceded by callback(&buf.data()[..n])')
